@@ -18,3 +18,15 @@ func (sc *serverConn) VPSrvResetQueued(id uint32) bool {
 	st := sc.streams[id]
 	return st != nil && st.resetQueued
 }
+
+// VPSrvStreamInflow returns what the server itself counts as receivable on the stream,
+// and whether a DATA frame on it would be judged against that count at all (the stream
+// is open on the server, no trailers seen, no RST_STREAM queued). Used to pick frame
+// sizes only; call only when quiescent.
+func (sc *serverConn) VPSrvStreamInflow(id uint32) (avail int32, ok bool) {
+	state, st := sc.state(id)
+	if st == nil || state != stateOpen || st.gotTrailerHeader || st.resetQueued || st.body == nil {
+		return 0, false
+	}
+	return st.inflow.avail, true
+}
